@@ -1,4 +1,4 @@
-\* C08 wide slice (quick): 2 users + public, 2 types, 2 keys, repeat-after {0,2}, clock {1,3,5}, 2 clients x 3 filter pairs, <= 2 additions, no waiters
+\* C08 wide slice (quick): 2 users + public, 2 types, 2 keys, repeat-after {0,2}, clock {1,3,5}, 2 clients (user default / root users=all+type), <= 2 additions, no waiters
 SPECIFICATION SpecPoll
 CONSTANTS
   Users <- MCUsers
@@ -7,7 +7,7 @@ CONSTANTS
   RepeatAfters = {0, 2}
   Data = {"d"}
   Clients <- MCClients
-  CfgChoices <- MCCfgChoices
+  CfgChoices <- MCCfgOne
   ClockValues = {1, 3, 5}
   MaxAdds = 2
   Bump = TRUE
